@@ -199,6 +199,8 @@ pub struct GenRec {
     pub shut_rd_step: Option<usize>,
     /// steps at which the application supplied responses for this generation
     pub supplied_steps: Vec<usize>,
+    /// the client did something a well-behaved client does not do (half-close, malformed or oversize input)
+    pub misbehaved: bool,
 }
 
 impl GenRec {
@@ -400,6 +402,7 @@ impl Sim {
             decided_entries: 0,
             shut_rd_step: None,
             supplied_steps: Vec::new(),
+            misbehaved: false,
         });
         self.current[client] = Some(self.gens.len() - 1);
         true
@@ -549,6 +552,7 @@ impl Sim {
     pub fn shutdown(&mut self, gi: usize, how: std::net::Shutdown) {
         self.step += 1;
         let g = &mut self.gens[gi];
+        g.misbehaved = true;
         if let Some(s) = g.stream.as_ref() {
             let _ = s.shutdown(how);
         }
